@@ -857,7 +857,12 @@ func replay(sc *Scenario, col *collector) {
 				}
 			}
 		}
-		if pre.coherent() {
+		// "a node named as the primary writer exists": right after RemoveNode(x) the recorded primary must not be
+		// x, however x's primary mark was lost before -- judged independently of the pre-state
+		if ty == "RemoveNode" && post.named != "" && post.named == str(c, "id") {
+			c23("named-primary-not-registered:after=RemoveNode", k, J{"primary_writer_id": post.named, "removed": str(c, "id"),
+				"writer_state_before_removal": pre.ws[str(c, "id")], "result": resA[k]})
+		} else if pre.coherent() {
 			if b := post.broken(); b != "" && !consequence {
 				c23(b+":after="+ty, k, J{"primary_writer_id": post.named, "marked_primary": post.primaries, "writer_states": post.ws, "result": resA[k]})
 			}
